@@ -86,8 +86,12 @@ func runC20(c *Ctx, idx int64) {
 	fail := func(kind, detail string) {
 		c.Violate(Violation{Kind: kind, Sig: "C20:" + kind + "|" + mode, Pool: "clean", Detail: detail, Witness: map[string]any{"workspace": w.String(), "workspace_root": w.Root}})
 	}
+	closed := map[int]bool{}
 	checkAll := func() bool {
 		for from := range w.Names {
+			if closed[from] {
+				continue
+			}
 			scope := w.Scope(from)
 			// model aggregates over the scope
 			type acctAgg struct {
@@ -323,6 +327,20 @@ func runC20(c *Ctx, idx int64) {
 		mode += "+after-edit-elsewhere"
 		if !checkAll() {
 			return
+		}
+		// third round: that file is closed without having been saved: the file on disk (without the
+		// new transaction) is what the others are made of again
+		if r.Bool() {
+			jb.Entries = jb.Entries[:len(jb.Entries)-1]
+			w.render()
+			s.Close(u)
+			s.Drain()
+			closed[b] = true
+			c.Count("third_round_after_close_without_save", 1)
+			mode = strings.Replace(mode, "+after-edit-elsewhere", "+after-close-unsaved", 1)
+			if !checkAll() {
+				return
+			}
 		}
 	}
 	if c.Rep.Evaluations%101 == 0 {
